@@ -1063,6 +1063,7 @@ class HandHistory(Iterable[State]):
         hole_card_counts = [0 for _ in self.starting_stacks]
         hole_cards = ''
         board_cards = ''
+        board_dealing_status = False
         match_state = ''
         action = ''
 
@@ -1143,9 +1144,13 @@ class HandHistory(Iterable[State]):
                             )
 
                 if isinstance(operation, BoardDealing):
-                    actions += '/'
-                    board_cards += '/' + ''.join(map(repr, operation.cards))
+                    if not board_dealing_status:
+                        actions += '/'
+                        board_cards += '/'
 
+                    board_cards += ''.join(map(repr, operation.cards))
+
+                board_dealing_status = isinstance(operation, BoardDealing)
                 hole_cards = '|'.join(map(''.join, raw_hole_cards))
                 match_state = (
                     f'MATCHSTATE'
@@ -1197,6 +1202,7 @@ class HandHistory(Iterable[State]):
         raw_hole_cards = [['', ''] for _ in self.starting_stacks]
         hole_card_counts = [0 for _ in self.starting_stacks]
         board_cards = ''
+        board_dealing_status = False
 
         for state in self:
             while index < len(state.operations):
@@ -1228,8 +1234,13 @@ class HandHistory(Iterable[State]):
                                 card,
                             )
                 elif isinstance(operation, BoardDealing):
-                    actions += '/'
-                    board_cards += '/' + ''.join(map(repr, operation.cards))
+                    if not board_dealing_status:
+                        actions += '/'
+                        board_cards += '/'
+
+                    board_cards += ''.join(map(repr, operation.cards))
+
+                board_dealing_status = isinstance(operation, BoardDealing)
 
         hole_cards = '|'.join(map(''.join, raw_hole_cards))
         raw_payoffs = []
